@@ -149,6 +149,7 @@ func (p *c11) Cases(tier string, emit func(interface{})) {
 	}
 	emit(c11Case{Part: "names"})
 	emit(c11Case{Part: "two-modules"})
+	emit(c11Case{Part: "feature-graph"})
 	emit(c11Case{Part: "deviation-copies"})
 	for i := range c11Deviations() {
 		emit(c11Case{Part: "deviation", Idx: i})
@@ -722,6 +723,8 @@ func (p *c11) Run(raw json.RawMessage) eng.Result {
 		c11Names(&res, ss)
 	case "two-modules":
 		c11TwoModules(&res, ss)
+	case "feature-graph":
+		c11FeatureGraph(&res, ss)
 	case "deviation-copies":
 		c11DeviationCopies(&res, ss)
 	case "deviation":
@@ -798,6 +801,162 @@ func c11Names(res *eng.Result, ss *sigSet) {
 // c11TwoModules: a module and the module it imports each define features a, b, c (b optionally depending
 // on a) and each guards a leaf; every pair of expressions of <= 3 tokens x every assignment x
 // allow-list/deny-list: each leaf is present exactly when its expression holds for its own module's features.
+// c11FeatureGraph: features that depend on features. Every way to give each of four features at most
+// one other feature as its if-feature (all acyclic ones: chains to length four, stars, forests, in
+// every declaration order the names allow) x every assignment x allow / deny list: a feature is on
+// exactly when it is asked for and the feature it depends on is on. Plus a dependency that crosses
+// an import (feature f { if-feature "d:a"; } where d:a depends on d:b).
+func c11FeatureGraph(res *eng.Result, ss *sigSet) {
+	names := []string{"a", "b", "c", "d"}
+	for g := 0; g < 625; g++ {
+		// dep[i] in 0..4: 4 = none, else index of the feature it depends on
+		dep := make([]int, 4)
+		x := g
+		ok := true
+		for i := range dep {
+			dep[i] = x % 5
+			x /= 5
+			if dep[i] == i {
+				ok = false
+			}
+		}
+		if !ok {
+			continue
+		}
+		// acyclic?
+		for i := range dep {
+			seen := 0
+			for j := i; dep[j] != 4; j = dep[j] {
+				if seen++; seen > 4 {
+					ok = false
+					break
+				}
+			}
+		}
+		if !ok {
+			continue
+		}
+		var sb strings.Builder
+		sb.WriteString(`module fg { namespace "urn:fg"; prefix fg; revision 0; `)
+		for i, n := range names {
+			if dep[i] == 4 {
+				sb.WriteString("feature " + n + "; ")
+			} else {
+				sb.WriteString("feature " + n + " { if-feature " + names[dep[i]] + "; } ")
+			}
+		}
+		for _, n := range names {
+			sb.WriteString("leaf l" + n + " { if-feature " + n + "; type string; } ")
+		}
+		sb.WriteString("leaf keep { type string; } }")
+		shape := ""
+		for i := range dep {
+			d := 0
+			for j := i; dep[j] != 4; j = dep[j] {
+				d++
+			}
+			shape += fmt.Sprint(d)
+		}
+		for bits := 0; bits < 16; bits++ {
+			on := map[string]bool{}
+			var onL, offL []string
+			for i, n := range names {
+				on[n] = bits&(1<<uint(i)) != 0
+				if on[n] {
+					onL = append(onL, n)
+				} else {
+					offL = append(offL, n)
+				}
+			}
+			for _, cfg := range []string{"allow-list", "deny-list"} {
+				var fs meta.FeatureSet
+				if cfg == "allow-list" {
+					fs = meta.FeaturesOn(onL)
+				} else {
+					fs = meta.FeaturesOff(offL)
+				}
+				m, err, fr, msg := c11Load(sb.String(), fs, nil)
+				res.Evals++
+				res.Nontriv++
+				site := fmt.Sprintf("C11/if-feature/feature-graph/%s/depths-%s", cfg, shape)
+				what := fmt.Sprintf("%s enabled %v", sb.String(), onL)
+				switch {
+				case fr != "":
+					ss.add(site+"/panic:"+fr, what+": "+msg)
+				case err != nil:
+					ss.add(site+"/load-error", what+": "+err.Error())
+				default:
+					for i, n := range names {
+						eff := true
+						for j := i; ; j = dep[j] {
+							eff = eff && on[names[j]]
+							if dep[j] == 4 {
+								break
+							}
+						}
+						if present, _ := c11ProbePath(m, "l"+n); present != eff {
+							ss.add(site+fmt.Sprintf("/leaf-present-%v-want-%v", present, eff), fmt.Sprintf("leaf l%s: %s", n, what))
+						}
+					}
+					if present, _ := c11ProbePath(m, "keep"); !present {
+						ss.add(site+"/unguarded-neighbour-lost", what)
+					}
+				}
+			}
+		}
+	}
+	// across an import
+	text := `module fi { namespace "urn:fi"; prefix fi; import dep { prefix d; } revision 0; feature f { if-feature "d:a"; } feature h { if-feature "f and not d:b"; }
+  leaf lf { if-feature f; type string; } leaf lh { if-feature h; type string; } leaf direct { if-feature "d:a"; type string; } leaf keep { type string; } }`
+	for _, impDep := range []bool{false, true} {
+		depText := `module dep { namespace "urn:dep"; prefix d; revision 0; feature a; feature b; }`
+		if impDep {
+			depText = `module dep { namespace "urn:dep"; prefix d; revision 0; feature a { if-feature b; } feature b; }`
+		}
+		fnames := []string{"a", "b", "f", "h"}
+		for bits := 0; bits < 16; bits++ {
+			on := map[string]bool{}
+			var onL, offL []string
+			for i, n := range fnames {
+				on[n] = bits&(1<<uint(i)) != 0
+				if on[n] {
+					onL = append(onL, n)
+				} else {
+					offL = append(offL, n)
+				}
+			}
+			for _, cfg := range []string{"allow-list", "deny-list"} {
+				var fs meta.FeatureSet
+				if cfg == "allow-list" {
+					fs = meta.FeaturesOn(onL)
+				} else {
+					fs = meta.FeaturesOff(offL)
+				}
+				m, err, fr, msg := c11Load(text, fs, map[string]string{"dep": depText})
+				res.Evals++
+				res.Nontriv++
+				site := fmt.Sprintf("C11/if-feature/feature-graph/%s/across-import:import-chain=%v", cfg, impDep)
+				what := fmt.Sprintf("enabled %v", onL)
+				effA := on["a"] && (!impDep || on["b"])
+				effF := on["f"] && effA
+				effH := on["h"] && effF && !on["b"]
+				switch {
+				case fr != "":
+					ss.add(site+"/panic:"+fr, what+": "+msg)
+				case err != nil:
+					ss.add(site+"/load-error", what+": "+err.Error())
+				default:
+					for leaf, want := range map[string]bool{"lf": effF, "lh": effH, "direct": effA, "keep": true} {
+						if present, _ := c11ProbePath(m, leaf); present != want {
+							ss.add(site+fmt.Sprintf("/%s-present-%v-want-%v", leaf, present, want), what)
+						}
+					}
+				}
+			}
+		}
+	}
+}
+
 func c11TwoModules(res *eng.Result, ss *sigSet) {
 	var exprs [][]string
 	for l := 1; l <= 3; l++ {
